@@ -408,6 +408,11 @@ func TestC13(t *testing.T) {
 	st := newStats(t, "C13", "cases = a valid segment V (2-20 vertices: proposals merging tips, rogue-sealed vertices on two chosen parents, spice and data) built at a source node and confirmed valid by a reference node fed parents-first; a fresh target receives a schedule of deliveries of V in a drawn order with duplicates, retry steps (bounded: <25 per vertex), local proposals and invalid vertices (corrupted signature, genesis issuer, parent that never arrives); oracle = missing parent reported and parked, final ledger contains every vertex of V with exactly its declared edges and signed fields, nothing twice, buffer empty, no invalid vertex; non-trivial = at least one child was delivered before a parent; enumerated permutations distinct by construction, random schedules by fingerprint")
 	sim.Chdir(workDir(t))
 	sh, n := shard(), nshards()
+	t.Run("retry-bound", func(t *testing.T) {
+		if sh%4 == 0 && c13RetryBound(st) {
+			t.Errorf("C13: retry bound")
+		}
+	})
 	t.Run("enum", func(t *testing.T) {
 		failed := false
 		k := scale(4, 5)
